@@ -6,3 +6,4 @@ import Gaftools.Props.C11
 #print axioms Gaftools.C11.quiescent_terminates
 #print axioms Gaftools.C11.quiescent_death_fails
 #print axioms Gaftools.C11.worker_step_decreases
+#print axioms Gaftools.C11.failed_worker_terminates
